@@ -401,7 +401,7 @@ func TestDriver(t *testing.T) {
 	served := 0
 	start := time.Now()
 	serve := func(c blobsq.Case, modelLayout bool) {
-		force := !modelLayout
+		force := !modelLayout || len(c.Segs) == 0 // random blocks and the directed wide family are always served
 		height++
 		b, err := blobsq.Build(c, height, vh.Seed(), rng)
 		if err != nil {
@@ -435,6 +435,9 @@ func TestDriver(t *testing.T) {
 		e.runAll(rng)
 		rep.Count("blocks_served", 1)
 		rep.Count(fmt.Sprintf("served_w%d", b.W), 1)
+		if b.W >= 128 && b.InRowPaddingThenTwoStarts() {
+			rep.Count("served_inrow_padding_then_two_starts", 1)
+		}
 		if len(ob) > 0 && served <= 3 {
 			rep.Sample(map[string]any{"case": c, "w": b.W, "real_starts": b.RealStarts})
 		}
@@ -465,12 +468,28 @@ func TestDriver(t *testing.T) {
 			t.Fatalf("replay: %v", err)
 		}
 		storeEvery = 1
-		serve(rp.Case, len(rp.Case.Segs) > 0)
+		serve(rp.Case, rp.Case.W > 0)
 		rep.Set("replayed", rp.Case)
 		return
 	}
 	for _, c := range cases {
 		serve(c, true)
+	}
+	// the directed family of wide production blocks (MCBlobLayoutWide): padding skipped in the middle of
+	// a row and a further blob start behind it in the same row; a seeded subset in the quick tier
+	var wide []blobsq.Case
+	if p := os.Getenv("VERIF_WIDE_CASES"); p != "" {
+		if err := vh.ReadJSON(p, &wide); err != nil {
+			t.Fatalf("wide cases: %v", err)
+		}
+	}
+	rng.Shuffle(len(wide), func(i, j int) { wide[i], wide[j] = wide[j], wide[i] })
+	if m := vh.EnvInt("VERIF_MAX_WIDE", 4); len(wide) > m {
+		wide = wide[:m]
+	}
+	for _, c := range wide {
+		serve(c, true)
+		rep.Count("wide_blocks", 1)
 	}
 	for i := 0; i < nRandom; i++ {
 		serve(randomCase(rng), false)
